@@ -257,3 +257,114 @@ class FilterEquivalent(Harness):
 
 
 HARNESSES = [Refine(), FilterEquivalent()]
+
+
+# ------------------------------------------------------------------------------------------------
+from antismash.common import hmmer as hm  # noqa: E402
+
+
+class _Len:
+    """a translation that only has a length"""
+    def __init__(self, n):
+        self.n = n
+
+    def __len__(self):
+        return self.n
+
+    def __hash__(self):
+        return 0
+
+    def __eq__(self, other):
+        return isinstance(other, _Len)
+
+
+from fractions import Fraction  # noqa: E402
+
+CUTOFFS = {"p": Fraction(20), "q": Fraction(30)}
+
+
+class HmmerOverlap(Harness):
+    pid, name = "C13", "hmmer_overlap"
+    functions = ["antismash.common.hmmer:remove_overlapping", "antismash.common.hmmer:HmmerHit"]
+    bound = ("k <= 3 hits over 2 profiles with concrete cutoffs 20 and 30, symbolic protein coordinates and scores (reals), "
+             "overlap_limit symbolic in [1, 50], every input order")
+    outside = "k > 3; other cutoffs; the 1/len(hit) term of the ranking is modelled exactly (rational)"
+    stubs = ["a hit's score is given by its reciprocal r (score = 1/r), so that cutoff/score is the linear term cutoff*r; "
+             "cutoffs and scores are exact rationals in the replay"]
+    exact_reals = True
+
+    def variants(self, tier):
+        out = []
+        for k in (2, 3):
+            for profs in itertools.product("pq", repeat=k):
+                if profs == tuple(sorted(profs)):
+                    out.append({"profiles": list(profs)})
+        return out
+
+    def vars(self, var):
+        d = {"limit": "int"}
+        for i in range(len(var["profiles"])):
+            d["s%d" % i] = "int"
+            d["e%d" % i] = "int"
+            d["sc%d" % i] = "real"     # the reciprocal of the hit's score
+        return d
+
+    def pre(self, var, v):
+        k = len(var["profiles"])
+        c = [1 <= v["limit"], v["limit"] <= 50]
+        for i in range(k):
+            c += [0 <= v["s%d" % i], v["s%d" % i] < v["e%d" % i], v["e%d" % i] <= 5000, v["sc%d" % i] > 0, v["sc%d" % i] <= 1]
+        for i in range(k):
+            for j in range(i + 1, k):
+                if var["profiles"][i] == var["profiles"][j]:
+                    c.append(L.Not(L.And(v["s%d" % i] == v["s%d" % j], v["e%d" % i] == v["e%d" % j], v["sc%d" % i] == v["sc%d" % j])))
+        return L.And(c)
+
+    def run(self, var, v):
+        from .. import logic
+        k = len(var["profiles"])
+        if logic.issym(v["limit"]):
+            from .. import core
+            scores = [core.SymRecip(v["sc%d" % i]) for i in range(k)]
+        else:
+            scores = [1 / Fraction(v["sc%d" % i]) for i in range(k)]
+        hits = [hm.HmmerHit("loc", "lbl", "cds", "dom", 1e-5, scores[i], var["profiles"][i], "desc",
+                            v["s%d" % i], v["e%d" % i], _Len(v["e%d" % i] - v["s%d" % i])) for i in range(k)]
+        outs = []
+        for perm in itertools.permutations(range(k)):
+            res = hm.remove_overlapping([hits[i] for i in perm], CUTOFFS, overlap_limit=v["limit"])
+            outs.append([[j for j in range(k) if hits[j] is h][0] for h in res])
+        return outs
+
+    def post(self, var, v, out):
+        if is_raised(out):
+            return [("no_raise", False)]
+        k = len(var["profiles"])
+        profs = var["profiles"]
+        lim = v["limit"]
+
+        def overlap(i, j):
+            return L.And(v["s%d" % i] <= v["e%d" % j] - lim, v["e%d" % i] >= v["s%d" % j] + lim)
+
+        def better(i, j):
+            """i ranks strictly before j: higher score/cutoff, then longer, then earlier start, then identifier"""
+            from fractions import Fraction
+            ci, cj = Fraction(CUTOFFS[profs[i]]), Fraction(CUTOFFS[profs[j]])
+            ni, nj = ci * v["sc%d" % i], cj * v["sc%d" % j]      # normalised = cutoff / score = cutoff * reciprocal
+            li, lj = v["e%d" % i] - v["s%d" % i], v["e%d" % j] - v["s%d" % j]
+            return L.Or(ni < nj, L.And(ni == nj, L.Or(li > lj, L.And(li == lj, L.Or(v["s%d" % i] < v["s%d" % j],
+                        L.And(v["s%d" % i] == v["s%d" % j], profs[i] < profs[j]))))))
+        first = out[0]
+        cl = [("same_result_for_every_input_order", all(o == first for o in out)),
+              ("ordered_by_position", L.And([v["s%d" % a] <= v["s%d" % b] for a, b in zip(first, first[1:])])),
+              ("nothing_left", len(first) >= 1)]
+        for a, b in itertools.combinations(first, 2):
+            cl.append(("no_two_kept_hits_overlap_beyond_limit", L.Not(overlap(a, b))))
+        for i in range(k):
+            if i not in first:
+                cl.append(("dropped_only_for_a_better_overlapping_kept_hit",
+                           L.Or([L.And(overlap(i, j), better(j, i)) for j in first])))
+        return cl
+
+
+HARNESSES = [Refine(), FilterEquivalent(), HmmerOverlap()]
